@@ -158,6 +158,19 @@ Definition sptenrand_request_spec (total : nat) (p : Z) (q : positive) : option 
 
 End Gen.
 
+(* ---------------------------------------------------------------- PROPOSED repair of finding A-46 *)
+(* fixes/C20-A-46-union-fallback.diff: the redraw loop is unchanged (same draws consumed, same result whenever one single
+   draw has enough distinct rows); only when every draw fell short, the result is taken from the distinct rows of ALL
+   consumed draws, in order of first appearance, at most nz of them, stored in ascending order *)
+Definition dedup_first (l : list idx) : list idx := rev (dedup (rev l)).
+Definition pool_rows (s : shape) (draws : list (list (list Z))) : list idx :=
+  flat_map (fun d => map (scale_row s) d) draws.
+Definition sprand_subs_union (nz : nat) (s : shape) (draws : list (list (list Z))) : list idx :=
+  let r := redraw 10 nz s [] draws in
+  if length (fst r) <? nz
+  then unique_rows (firstn nz (dedup_first (pool_rows s (firstn (snd r) draws))))
+  else firstn nz (fst r).
+
 (* ---------------------------------------------------------------- teneye (entry formula, exact arithmetic on counts) *)
 Fixpoint insert_all (x : nat) (l : list nat) : list (list nat) :=
   match l with
